@@ -356,7 +356,7 @@ def h_mm_commit_fence(h: H):
 
 
 def _replay_mm_commit(ob):
-    fallback = ob.get("verdict") == "undecided"
+    fallback = ob.get("verdict") in ("undecided", "scenario")
     name = ob.get("name", "")
     return f"FALLBACK = {fallback!r}\nOBLIGATION = {name!r}\n" + '''
 import sys, os, tempfile, shutil, copy, time
@@ -731,7 +731,7 @@ def h_tx_commit(kind: str, async_edges: bool):
 
 
 def _replay_tx(ob):
-    fallback = ob.get("verdict") == "undecided"
+    fallback = ob.get("verdict") in ("undecided", "scenario")
     return f"FALLBACK = {fallback!r}\n" + '''
 import sys, os, tempfile, shutil
 from datashard import create_table, load_table
